@@ -1,40 +1,9 @@
-(* C19 — proofs about the model of expand_env_vars against the one-pass spec. *)
+(* C19 — proofs about the model of expand_env_vars (one-pass code, fix cc9466f) against the
+   one-pass spec.  The analysis of the pre-fix algorithm is in Proofs/EnvExpandOld.v. *)
 From Coq Require Import List NArith Bool Lia PeanoNat.
 Import ListNotations.
 From L4 Require Import Common.Str Model.EnvExpand Proofs.EnvExpandSpec.
 Local Open Scope N_scope.
-
-Definition values_dollar_free (env : ustr -> option ustr) : Prop :=
-  forall n v, env n = Some v -> ~ In 36 v.
-
-(* ================= the forged-reference defect ================= *)
-(* A = "ENV{B}", B = "vb", path "x$$ENV{A}-$ENV{B}" *)
-Definition wit_tbl : list (ustr * ustr) := [([65], [69;78;86;123;66;125]); ([66], [118;98])].
-Definition wit_path : ustr := [120;36;36;69;78;86;123;65;125;45;36;69;78;86;123;66;125].
-
-Lemma lookup_dollar_free tbl :
-  forallb (fun kv => negb (existsb (N.eqb 36) (snd kv))) tbl = true -> values_dollar_free (lookup tbl).
-Proof.
-  induction tbl as [|[k v] r IH]; cbn; intros H n w E; [discriminate|].
-  apply andb_true_iff in H. destruct H as [H1 H2].
-  destruct (str_eqb n k).
-  - injection E as <-. intros Hin. apply negb_true_iff in H1.
-    assert (existsb (N.eqb 36) v = true) by (apply existsb_exists; exists 36; split; [exact Hin|apply N.eqb_refl]).
-    congruence.
-  - exact (IH H2 n w E).
-Qed.
-
-Theorem expand_refuted :
-  exists ua env p,
-    values_dollar_free env /\
-    expand ua env p = Ok [120;118;98;45;118;98] /\                      (* "xvb-vb" *)
-    expand_spec ua env p = [120;36;69;78;86;123;66;125;45;118;98] /\    (* "x$ENV{B}-vb" *)
-    NoForgedRef ua env p = false.
-Proof.
-  exists (fun _ => false), (lookup wit_tbl), wit_path.
-  split; [apply lookup_dollar_free; vm_compute; reflexivity|].
-  vm_compute. repeat split; reflexivity.
-Qed.
 
 (* ================= elementary string lemmas ================= *)
 
@@ -306,21 +275,22 @@ Section Proofs.
   (* ================= the loop of expand, segment by segment ================= *)
 
   Notation step := (step uni_alnum env).
+  Notation sem := (sem env).
 
-  Lemma step_eq path out ms :
-    step path (Ok out) ms =
+  Lemma step_eq path out copied ms :
+    step path (Some (out, copied)) ms =
     match bdrop path (ms + env_prefix_len) with
-    | None => Panic
+    | None => None
     | Some tail =>
       match valid_name tail with
-      | None => Ok out
+      | None => Some (out, copied)
       | Some name =>
         match env name with
-        | None => Ok out
+        | None => Some (out, copied)
         | Some v =>
-          match bslice path ms (ms + env_prefix_len + blen name + 1) with
-          | None => Panic
-          | Some needle => Ok (replace_all out needle v)
+          match bslice path copied ms with
+          | None => None
+          | Some lit => Some (out ++ lit ++ v, ms + env_prefix_len + blen name + 1)
           end
         end
       end
@@ -331,13 +301,14 @@ Section Proofs.
     destruct (name_loop cs); reflexivity.
   Qed.
 
-  (* what one processed segment does to the output *)
-  Definition seg_step (out : ustr) (sg : seg) : ustr :=
-    match sg with
-    | Ref n => match env n with Some v => replace_all out (raw n) v | None => out end
-    | Lit _ => out
+  (* the tail of the function, after the loop *)
+  Definition finish (path : ustr) (st : option (ustr * N)) : res :=
+    match st with
+    | None => Panic
+    | Some (outpath, copied) =>
+      if copied =? 0 then Ok path
+      else match bdrop path copied with None => Panic | Some t => Ok (outpath ++ t) end
     end.
-  Definition run_segs (sgs : list seg) (out : ustr) : ustr := fold_left seg_step sgs out.
 
   Lemma blen_prefix : blen env_prefix = env_prefix_len.
   Proof. reflexivity. Qed.
@@ -347,21 +318,41 @@ Section Proofs.
     unfold raw. rewrite !blen_app. change (blen env_prefix) with 5. change (blen [env_suffix]) with 1. lia.
   Qed.
 
-  Lemma scan_segments k : forall s, (length s <= k)%nat -> forall pre out,
-    fold_left (step (pre ++ s)) (match_indices_from env_prefix s (blen pre) 0) (Ok out)
-    = Ok (run_segs (segments s) out).
+  Lemma blen_0 s : blen s = 0 -> s = [].
+  Proof. destruct s as [|c r]; [reflexivity|]. cbn [blen]. pose proof (len_utf8_pos c). lia. Qed.
+
+  (* Invariant of the loop: the path is pc ++ pl ++ s where pc (blen pc = copied) has been
+     emitted into `out` in expanded form, pl is literal text seen but not yet copied, s is still
+     to be scanned.  The final result is out ++ pl ++ (one-pass expansion of s). *)
+  Lemma scan_segments k : forall s, (length s <= k)%nat -> forall pc pl out,
+    (pc = [] -> out = []) ->
+    finish (pc ++ pl ++ s)
+           (fold_left (step (pc ++ pl ++ s))
+                      (match_indices_from env_prefix s (blen pc + blen pl) 0) (Some (out, blen pc)))
+    = Ok (out ++ pl ++ concat (map sem (segments s))).
   Proof.
-    induction k as [|k IH]; intros s Hl pre out.
-    { destruct s; [reflexivity|cbn in Hl; lia]. }
-    destruct s as [|c r]; [reflexivity|].
+    induction k as [|k IH]; intros s Hl pc pl out Hinv.
+    { destruct s; [|cbn in Hl; lia]. cbn [match_indices_from fold_left finish map concat].
+      rewrite !app_nil_r. destruct (N.eqb_spec (blen pc) 0) as [E|E].
+      - apply blen_0 in E. subst pc. rewrite (Hinv eq_refl). reflexivity.
+      - now rewrite bdrop_app. }
+    destruct s as [|c r].
+    { cbn [match_indices_from fold_left finish map concat].
+      rewrite !app_nil_r. destruct (N.eqb_spec (blen pc) 0) as [E|E].
+      - apply blen_0 in E. subst pc. rewrite (Hinv eq_refl). reflexivity.
+      - now rewrite bdrop_app. }
     destruct (starts_with env_prefix (c :: r)) eqn:Hw.
     - (* an occurrence of "$ENV{" *)
       destruct (starts_with_split _ _ Hw) as (t & Es). rewrite Es.
       assert (Hlt : (length t <= k)%nat).
       { apply (f_equal (@length _)) in Es. rewrite app_length in Es. cbn in Es, Hl. lia. }
       rewrite mi_hit by discriminate. cbn [fold_left]. rewrite step_eq.
-      assert (Hbd : bdrop (pre ++ env_prefix ++ t) (blen pre + env_prefix_len) = Some t).
-      { rewrite app_assoc, <- blen_prefix, <- blen_app. apply bdrop_app. }
+      assert (Hbd : bdrop (pc ++ pl ++ env_prefix ++ t) (blen pc + blen pl + env_prefix_len) = Some t).
+      { replace (pc ++ pl ++ env_prefix ++ t) with ((pc ++ pl ++ env_prefix) ++ t)
+          by now rewrite <- !app_assoc.
+        replace (blen pc + blen pl + env_prefix_len) with (blen (pc ++ pl ++ env_prefix))
+          by (rewrite !blen_app, blen_prefix; lia).
+        apply bdrop_app. }
       rewrite Hbd.
       destruct (valid_name t) as [name|] eqn:Ev.
       + (* well-formed reference *)
@@ -375,258 +366,102 @@ Section Proofs.
         assert (Hsg : segments (env_prefix ++ t) = Ref name :: segments rest).
         { change (env_prefix ++ t) with (36 :: ([69;78;86;123] ++ t)). rewrite segments_cons.
           change (36 :: ([69;78;86;123] ++ t)) with (env_prefix ++ t). now rewrite Er. }
-        rewrite Hsg. unfold run_segs. cbn [fold_left seg_step].
-        assert (Hmi : match_indices_from env_prefix t (blen pre + blen env_prefix) 0
-                      = match_indices_from env_prefix rest (blen (pre ++ raw name)) 0).
-        { rewrite Et. change (name ++ env_suffix :: rest) with (name ++ [env_suffix] ++ rest).
-          rewrite app_assoc. unfold env_prefix at 1 3.
-          rewrite (mi_no_dollar _ _ _ _ Hdf). f_equal.
-          rewrite !blen_app, blen_raw. change (blen [env_suffix]) with 1. rewrite blen_prefix. unfold env_prefix_len. lia. }
-        assert (Hpath : pre ++ env_prefix ++ t = (pre ++ raw name) ++ rest).
-        { rewrite Et. unfold raw. rewrite <- !app_assoc. reflexivity. }
+        rewrite Hsg. cbn [map concat EnvExpandSpec.sem].
+        assert (Hmi : forall off, match_indices_from env_prefix t off 0
+                      = match_indices_from env_prefix rest (off + (blen name + 1)) 0).
+        { intros off. rewrite Et. change (name ++ env_suffix :: rest) with (name ++ [env_suffix] ++ rest).
+          rewrite app_assoc. unfold env_prefix.
+          rewrite (mi_no_dollar _ _ _ _ Hdf). f_equal. rewrite blen_app. reflexivity. }
+        rewrite Hmi.
         destruct (env name) as [v|] eqn:Ee.
-        * assert (Hsl : bslice (pre ++ env_prefix ++ t) (blen pre)
-                               (blen pre + env_prefix_len + blen name + 1) = Some (raw name)).
-          { replace (pre ++ env_prefix ++ t) with (pre ++ raw name ++ rest)
-              by (rewrite Hpath; now rewrite <- app_assoc).
-            replace (blen pre + env_prefix_len + blen name + 1) with (blen pre + blen (raw name))
-              by (rewrite blen_raw; unfold env_prefix_len; lia).
-            apply bslice_app. }
-          rewrite Hsl, Hmi, Hpath. apply IH. exact Hrest.
-        * rewrite Hmi, Hpath. apply IH. exact Hrest.
+        * assert (Hsl : bslice (pc ++ pl ++ env_prefix ++ t) (blen pc) (blen pc + blen pl) = Some pl)
+            by apply bslice_app.
+          rewrite Hsl.
+          (* new state: everything up to the end of the reference has been emitted *)
+          replace (pc ++ pl ++ env_prefix ++ t) with ((pc ++ pl ++ raw name) ++ [] ++ rest)
+            by (rewrite Et; unfold raw; cbn [app]; rewrite <- !app_assoc; reflexivity).
+          replace (blen pc + blen pl + env_prefix_len + blen name + 1) with (blen (pc ++ pl ++ raw name))
+            by (rewrite !blen_app, blen_raw; unfold env_prefix_len; lia).
+          replace (blen pc + blen pl + blen env_prefix + (blen name + 1))
+            with (blen (pc ++ pl ++ raw name) + blen [])
+            by (rewrite !blen_app, blen_raw, blen_prefix; unfold env_prefix_len; cbn [blen]; lia).
+          rewrite IH; [|exact Hrest|].
+          -- cbn [app]. now rewrite <- !app_assoc.
+          -- intros E. exfalso. apply app_eq_nil in E. destruct E as [_ E].
+             apply app_eq_nil in E. destruct E as [_ E]. discriminate.
+        * (* unset variable: the reference is literal text *)
+          replace (pc ++ pl ++ env_prefix ++ t) with (pc ++ (pl ++ raw name) ++ rest)
+            by (rewrite Et; unfold raw; rewrite <- !app_assoc; reflexivity).
+          replace (blen pc + blen pl + blen env_prefix + (blen name + 1))
+            with (blen pc + blen (pl ++ raw name))
+            by (rewrite !blen_app, blen_raw, blen_prefix; unfold env_prefix_len; lia).
+          rewrite IH; [|exact Hrest|exact Hinv]. now rewrite <- !app_assoc.
       + (* malformed: "$ENV{" stays literal, scanning resumes after it *)
         pose proof (valid_name_none _ Ev) as Er.
-        assert (Hsg : run_segs (segments (env_prefix ++ t)) out = run_segs (segments t) out).
+        assert (Hsg : segments (env_prefix ++ t) = map Lit env_prefix ++ segments t).
         { change (env_prefix ++ t) with (36 :: ([69;78;86;123] ++ t)). rewrite segments_cons.
           change (36 :: ([69;78;86;123] ++ t)) with (env_prefix ++ t). rewrite Er.
           cbn [app]. rewrite !segments_lit by discriminate. reflexivity. }
-        rewrite Hsg, app_assoc, <- blen_app. apply IH. exact Hlt.
+        rewrite Hsg.
+        replace (pc ++ pl ++ env_prefix ++ t) with (pc ++ (pl ++ env_prefix) ++ t)
+          by now rewrite <- !app_assoc.
+        replace (blen pc + blen pl + blen env_prefix) with (blen pc + blen (pl ++ env_prefix))
+          by (rewrite !blen_app; lia).
+        rewrite IH; [|exact Hlt|exact Hinv]. rewrite map_app, concat_app. cbn [map concat EnvExpandSpec.sem app].
+        now rewrite <- !app_assoc.
     - (* no occurrence here *)
       rewrite mi_miss by exact Hw. rewrite segments_cons, (ref_at_not_prefix _ Hw).
-      unfold run_segs. cbn [fold_left seg_step].
-      replace (pre ++ c :: r) with ((pre ++ [c]) ++ r) by now rewrite <- app_assoc.
-      replace (blen pre + len_utf8 c) with (blen (pre ++ [c])) by (rewrite blen_app; cbn; lia).
-      apply IH. cbn in Hl. lia.
+      replace (pc ++ pl ++ c :: r) with (pc ++ (pl ++ [c]) ++ r) by now rewrite <- !app_assoc.
+      replace (blen pc + blen pl + len_utf8 c) with (blen pc + blen (pl ++ [c]))
+        by (rewrite blen_app; cbn [blen]; lia).
+      rewrite IH; [|cbn in Hl; lia|exact Hinv]. cbn [map concat EnvExpandSpec.sem]. now rewrite <- !app_assoc.
   Qed.
 
-  (* the whole function is the fold of the per-segment steps: in particular every byte
-     offset it slices at is a character boundary *)
-  Theorem expand_as_segments p :
-    expand uni_alnum env p = Ok (run_segs (segments p) p).
+  (* THE PROPERTY: for every path and every environment the code computes the one-pass
+     expansion; in particular it never panics (every byte offset it slices at is a character
+     boundary, and `copied` never overtakes a later match). *)
+  Theorem expand_is_one_pass p :
+    expand uni_alnum env p = Ok (expand_spec uni_alnum env p).
   Proof.
-    unfold expand, match_indices. exact (scan_segments (length p) p (le_n _) [] p).
+    unfold expand, match_indices.
+    exact (scan_segments (length p) p (le_n _) [] [] [] (fun _ => eq_refl)).
   Qed.
 
   Theorem expand_total p : expand uni_alnum env p <> Panic.
-  Proof. rewrite expand_as_segments. discriminate. Qed.
+  Proof. rewrite expand_is_one_pass. discriminate. Qed.
 
-  (* ================= segments partition the path ================= *)
+  (* ================= facts about the spec ================= *)
 
-  Notation sem_d := (sem_d env).
-  Notation sem := (sem env).
-  Notation out_d := (out_d env).
-  Notation clean := (clean env).
-  Notation active := (active env).
-  Notation no_forged := (no_forged env).
-
-  Definition seg_ok (sg : seg) : Prop :=
-    match sg with Ref n => dollar_free n | Lit _ => True end.
-
-  Lemma segments_facts k : forall s, (length s <= k)%nat ->
-    out_d [] (segments s) = s /\ Forall seg_ok (segments s).
+  (* the segments partition the path: "left unchanged" is byte-for-byte *)
+  Lemma segments_text k : forall s, (length s <= k)%nat -> concat (map seg_text (segments s)) = s.
   Proof.
     induction k as [|k IH]; intros s Hl.
-    { destruct s; [split; [reflexivity|constructor]|cbn in Hl; lia]. }
-    destruct s as [|c r]; [split; [reflexivity|constructor]|].
+    { destruct s; [reflexivity|cbn in Hl; lia]. }
+    destruct s as [|c r]; [reflexivity|].
     rewrite segments_cons. destruct (ref_at (c :: r)) as [[n rest]|] eqn:E.
-    - pose proof (ref_at_shorter _ _ _ E) as Hs. destruct (ref_at_some _ _ _ E) as (Hr & Hp).
-      destruct (IH rest) as (H1 & H2); [cbn in Hl, Hs; lia|]. split.
-      + unfold EnvExpandSpec.out_d in *. cbn [map concat EnvExpandSpec.sem_d mem existsb].
-        rewrite H1, Hr. destruct (env n); reflexivity.
-      + constructor; [|exact H2]. cbn. eapply Forall_impl; [|exact Hp].
-        intros a Ha. now apply part_not_dollar.
-    - destruct (IH r) as (H1 & H2); [cbn in Hl; lia|]. split.
-      + unfold EnvExpandSpec.out_d in *. cbn [map concat EnvExpandSpec.sem_d app]. now rewrite H1.
-      + constructor; [exact I|exact H2].
+    - pose proof (ref_at_shorter _ _ _ E) as Hs. destruct (ref_at_some _ _ _ E) as (Hr & _).
+      cbn [map concat seg_text]. rewrite IH by (cbn in Hl, Hs; lia). now rewrite Hr.
+    - cbn [map concat seg_text app]. rewrite IH by (cbn in Hl; lia). reflexivity.
   Qed.
 
-  (* all other text is left unchanged: the unsubstituted segments spell the path *)
-  Lemma segments_print s : out_d [] (segments s) = s.
-  Proof. exact (proj1 (segments_facts (length s) s (le_n _))). Qed.
+  Theorem segments_partition p : concat (map seg_text (segments p)) = p.
+  Proof. exact (segments_text (length p) p (le_n _)). Qed.
 
-  Lemma segments_ok s : Forall seg_ok (segments s).
-  Proof. exact (proj2 (segments_facts (length s) s (le_n _))). Qed.
-
-  (* ================= one substitution step on a clean path ================= *)
-
-  Lemma raw_cons n : raw n = 36 :: ([69;78;86;123] ++ n ++ [env_suffix]).
-  Proof. reflexivity. Qed.
-
-  Lemma raw_tail_dollar_free n : dollar_free n -> dollar_free ([69;78;86;123] ++ n ++ [env_suffix]).
+  (* no reference to a set variable: nothing changes *)
+  Theorem spec_unset_identity p :
+    (forall n, In (Ref n) (segments p) -> env n = None) -> expand_spec uni_alnum env p = p.
   Proof.
-    intros H. apply Forall_app. split; [repeat constructor; discriminate|].
-    apply Forall_app. split; [exact H|repeat constructor; discriminate].
+    intros H. unfold expand_spec. rewrite <- (segments_partition p) at 2. f_equal.
+    apply map_ext_in. intros sg Hin. destruct sg as [c|n]; [reflexivity|].
+    cbn [EnvExpandSpec.sem seg_text]. now rewrite (H n Hin).
   Qed.
 
-  Lemma out_d_cons done sg r : out_d done (sg :: r) = sem_d done sg ++ out_d done r.
-  Proof. reflexivity. Qed.
-
-  Lemma mem_cons x y l : mem x (y :: l) = str_eqb x y || mem x l.
-  Proof. reflexivity. Qed.
-
-  Hypothesis Hvals : values_dollar_free env.
-
-  Lemma value_dollar_free n v : env n = Some v -> dollar_free v.
+  (* a '$'-free prefix (the directory the harness puts in front) takes no part *)
+  Theorem spec_prefix pre p :
+    dollar_free pre -> expand_spec uni_alnum env (pre ++ p) = pre ++ expand_spec uni_alnum env p.
   Proof.
-    intros E. apply Forall_forall. intros c Hc ->. exact (Hvals n v E Hc).
-  Qed.
-
-  Lemma repl_raw_miss n v m rest :
-    dollar_free m -> starts_with (raw n) (raw m ++ rest) = false ->
-    replace_from (raw n) v (raw m ++ rest) 0 = raw m ++ replace_from (raw n) v rest 0.
-  Proof.
-    intros Hm H.
-    change (raw m ++ rest) with (36 :: (([69;78;86;123] ++ m ++ [env_suffix]) ++ rest)) in *.
-    change (raw m ++ replace_from (raw n) v rest 0)
-      with (36 :: (([69;78;86;123] ++ m ++ [env_suffix]) ++ replace_from (raw n) v rest 0)).
-    rewrite repl_miss by exact H. f_equal. rewrite raw_cons. apply repl_no_dollar.
-    apply raw_tail_dollar_free. exact Hm.
-  Qed.
-
-  Lemma clean_step done n v sgs :
-    env n = Some v -> Forall seg_ok sgs -> clean done n sgs = true ->
-    replace_from (raw n) v (out_d done sgs) 0 = out_d (n :: done) sgs.
-  Proof.
-    intros En Hok. induction Hok as [|sg r Hsg _ IH]; intros Hc; [reflexivity|].
-    cbn [EnvExpandSpec.clean] in Hc. apply andb_true_iff in Hc. destruct Hc as [Hhere Hr].
-    specialize (IH Hr). rewrite !out_d_cons. rewrite out_d_cons in Hhere.
-    destruct sg as [c|m]; cbn [EnvExpandSpec.sem_d EnvExpandSpec.genuine] in *.
-    - (* literal character *)
-      cbn [orb app] in Hhere. apply negb_true_iff in Hhere.
-      cbn [app]. rewrite repl_miss by exact Hhere. f_equal. exact IH.
-    - destruct (env m) as [vm|] eqn:Em.
-      + rewrite mem_cons. destruct (mem m done) eqn:Hmd.
-        * (* already substituted: '$'-free text *)
-          rewrite orb_true_r, raw_cons, repl_no_dollar by (apply (value_dollar_free m); exact Em).
-          rewrite <- raw_cons. f_equal. exact IH.
-        * rewrite orb_false_r. destruct (str_eqb_spec m n) as [->|Hne].
-          -- (* the reference being processed (first time: n not yet done) *)
-             rewrite Em in En. injection En as ->.
-             rewrite repl_hit by discriminate. f_equal. exact IH.
-          -- (* an unsubstituted reference to another variable *)
-             cbn [andb orb] in Hhere. apply negb_true_iff in Hhere.
-             rewrite repl_raw_miss by assumption. f_equal. exact IH.
-      + (* reference to an unset variable *)
-        assert (Hg : str_eqb m n && negb (mem n done) = false).
-        { destruct (str_eqb_spec m n) as [->|]; [congruence|reflexivity]. }
-        rewrite Hg in Hhere. cbn [orb] in Hhere. apply negb_true_iff in Hhere.
-        rewrite repl_raw_miss by assumption. f_equal. exact IH.
-  Qed.
-
-  (* ================= all steps ================= *)
-
-  Definition name_step (out : ustr) (n : ustr) : ustr :=
-    match env n with Some v => replace_all out (raw n) v | None => out end.
-
-  Lemma run_segs_active sgs out : run_segs sgs out = fold_left name_step (active sgs) out.
-  Proof.
-    unfold run_segs. revert out; induction sgs as [|sg r IH]; intros out; [reflexivity|].
-    cbn [fold_left EnvExpandSpec.active]. destruct sg as [c|n]; cbn [seg_step]; [apply IH|].
-    destruct (env n) as [v|] eqn:E.
-    - cbn [fold_left]. unfold name_step at 2. rewrite E. apply IH.
-    - apply IH.
-  Qed.
-
-  Lemma active_set sgs n : In n (active sgs) -> env n <> None.
-  Proof.
-    induction sgs as [|sg r IH]; cbn [EnvExpandSpec.active]; [intros []|].
-    destruct sg as [c|m]; [exact IH|]. destruct (env m) eqn:E; [|exact IH].
-    intros [<-|H]; [congruence|exact (IH H)].
-  Qed.
-
-  Lemma active_complete sgs n v : In (Ref n) sgs -> env n = Some v -> In n (active sgs).
-  Proof.
-    induction sgs as [|sg r IH]; [intros []|]. intros [->|H] E; cbn [EnvExpandSpec.active].
-    - rewrite E. now left.
-    - destruct sg as [c|m]; [exact (IH H E)|]. destruct (env m); [right|]; exact (IH H E).
-  Qed.
-
-  Lemma steps_clean sgs : Forall seg_ok sgs -> forall todo done,
-    (forall n, In n todo -> env n <> None) ->
-    no_forged sgs todo done = true ->
-    fold_left name_step todo (out_d done sgs) = out_d (rev todo ++ done) sgs.
-  Proof.
-    intros Hok. induction todo as [|n r IH]; intros done Hset Hnf; [reflexivity|].
-    cbn [EnvExpandSpec.no_forged] in Hnf. apply andb_true_iff in Hnf. destruct Hnf as [Hc Hr].
-    cbn [fold_left rev]. unfold name_step at 2.
-    destruct (env n) as [v|] eqn:E; [|exfalso; exact (Hset n (or_introl eq_refl) E)].
-    unfold replace_all. rewrite (clean_step done n v sgs E Hok Hc).
-    rewrite IH; [|intros x Hx; apply Hset; now right|exact Hr].
-    now rewrite <- app_assoc.
-  Qed.
-
-  Lemma out_d_all sgs done :
-    (forall n, In n (active sgs) -> mem n done = true) -> out_d done sgs = concat (map sem sgs).
-  Proof.
-    unfold EnvExpandSpec.out_d. induction sgs as [|sg r IH]; intros H; [reflexivity|].
-    cbn [map concat]. f_equal.
-    - destruct sg as [c|n]; [reflexivity|]. cbn [EnvExpandSpec.sem_d EnvExpandSpec.sem].
-      destruct (env n) as [v|] eqn:E; [|reflexivity].
-      rewrite H; [reflexivity|]. cbn [EnvExpandSpec.active]. rewrite E. now left.
-    - apply IH. intros n Hn. apply H. cbn [EnvExpandSpec.active].
-      destruct sg as [c|m]; [exact Hn|]. destruct (env m); [now right|exact Hn].
-  Qed.
-
-  (* The property for every path outside the known-finding class: with '$'-free values and
-     no forged reference, the code's sequential replace-all computes the one-pass expansion. *)
-  Theorem expand_is_one_pass p :
-    NoForgedRef uni_alnum env p = true ->
-    expand uni_alnum env p = Ok (expand_spec uni_alnum env p).
-  Proof.
-    intros Hnf. rewrite expand_as_segments. f_equal. rewrite run_segs_active.
-    unfold NoForgedRef in Hnf.
-    rewrite <- (segments_print p) at 2.
-    rewrite (steps_clean _ (segments_ok p) _ [] (active_set _) Hnf).
-    unfold expand_spec. apply out_d_all. intros n Hn.
-    apply mem_In. rewrite app_nil_r. now apply -> in_rev.
+    intros Hpre. unfold expand_spec.
+    induction Hpre as [|c a Hc _ IH]; [reflexivity|].
+    cbn [app]. rewrite segments_lit by exact Hc. cbn [map concat EnvExpandSpec.sem app]. now rewrite IH.
   Qed.
 End Proofs.
-
-(* a path none of whose references names a set variable comes back unchanged, whatever the
-   values of the other variables *)
-Theorem expand_unset_identity ua env p :
-  (forall n, In (Ref n) (segments ua p) -> env n = None) -> expand ua env p = Ok p.
-Proof.
-  intros H. rewrite expand_as_segments. f_equal. unfold run_segs.
-  assert (G : forall sgs out, (forall n, In (Ref n) sgs -> env n = None) ->
-                              fold_left (seg_step env) sgs out = out).
-  { induction sgs as [|sg r IH]; intros out Hs; [reflexivity|]. cbn [fold_left].
-    destruct sg as [c|n]; cbn [seg_step].
-    - apply IH. intros n Hn. apply Hs. now right.
-    - rewrite (Hs n (or_introl eq_refl)). apply IH. intros m Hm. apply Hs. now right. }
-  apply G. exact H.
-Qed.
-
-(* a '$'-free prefix (the directory the harness puts in front of the path) takes no part in
-   the expansion *)
-Theorem expand_prefix ua env pre p :
-  dollar_free pre ->
-  expand ua env (pre ++ p) =
-  match expand ua env p with Ok s => Ok (pre ++ s) | Panic => Panic end.
-Proof.
-  intros Hpre. rewrite !expand_as_segments. f_equal.
-  assert (Hs : segments ua (pre ++ p) = map Lit pre ++ segments ua p).
-  { induction Hpre as [|c a Hc _ IH]; [reflexivity|].
-    cbn [app map]. rewrite segments_lit by exact Hc. f_equal. exact IH. }
-  rewrite Hs. unfold run_segs. rewrite fold_left_app.
-  assert (Hl : forall (l : ustr) out, fold_left (seg_step env) (map Lit l) out = out).
-  { induction l as [|c a IH]; intros out; [reflexivity|]. cbn [map fold_left seg_step]. apply IH. }
-  rewrite Hl.
-  assert (G : forall sgs out, fold_left (seg_step env) sgs (pre ++ out)
-                              = pre ++ fold_left (seg_step env) sgs out).
-  { induction sgs as [|sg r IH]; intros out; [reflexivity|].
-    cbn [fold_left]. destruct sg as [c|n]; cbn [seg_step]; [apply IH|].
-    destruct (env n) as [v|]; [|apply IH].
-    unfold replace_all. rewrite raw_cons, repl_no_dollar by exact Hpre. apply IH. }
-  apply G.
-Qed.
